@@ -246,6 +246,29 @@ func (s *Sim) RandomMembershipOp(o MemOpts) *OpRec {
 			return nil
 		}
 		sort.Strings(cands)
+		if len(o.NoLeave) > 0 {
+			// a hand is running: a departure of somebody who stands in the player list before a
+			// participant shifts the participants' indexes, which the hand's own index list must
+			// follow; aim at that class half of the time it is available
+			lastPart, low := -1, ""
+			for i, p := range t.State.PlayerStates {
+				if o.NoLeave[p.PlayerID] {
+					lastPart = i
+				}
+			}
+			for i, p := range t.State.PlayerStates {
+				if !o.NoLeave[p.PlayerID] && i < lastPart {
+					low = p.PlayerID
+					break
+				}
+			}
+			if low != "" {
+				if choose.Chance(s.Ch, "mem.leave.low", 50) {
+					s.Label("inhand_leave_below_participant")
+					return s.Leave([]string{low}, "valid")
+				}
+			}
+		}
 		n := 1
 		if len(cands) > 1 && choose.Chance(s.Ch, "mem.leave.multi", 25) {
 			n = 2
@@ -254,6 +277,20 @@ func (s *Sim) RandomMembershipOp(o MemOpts) *OpRec {
 		ids := []string{}
 		for i := 0; i < n; i++ {
 			ids = append(ids, cands[perm[i]])
+		}
+		if len(o.NoLeave) > 0 {
+			for _, id := range ids {
+				for i, p := range t.State.PlayerStates {
+					if p.PlayerID == id {
+						for j := i + 1; j < len(t.State.PlayerStates); j++ {
+							if o.NoLeave[t.State.PlayerStates[j].PlayerID] {
+								s.Label("inhand_leave_below_participant")
+								j = len(t.State.PlayerStates)
+							}
+						}
+					}
+				}
+			}
 		}
 		return s.Leave(ids, "valid")
 	case 6:
